@@ -224,11 +224,57 @@ def check_partition(prog: Program, res: Result) -> None:
     res.floor(R, 6)
 
 
+def check_select(prog: Program, res: Result) -> None:
+    """match_candidates_sample itself scrubs NaN line scores (`cost[isnan(cost)] = inf`): it believes they occur (they
+    do: coincident peaks give 0/0).  Order-based selections (argmax/argmin/max/min/topk/sort, the assignment solver)
+    treat NaN as an extreme value, so every selection over data derived from the line scores has to read the SCRUBBED
+    array; a shortcut that ranks the raw scores picks the undefined candidate over the best defined one."""
+    R = "C08-select"
+    fi = prog.func(f"{PG}:match_candidates_sample")
+    res.touch(fi)
+    score_params = [p for p in fi.params if "score" in p]
+    if not score_params:
+        raise AnalysisError(f"{fi.qualname}: no line-score parameter")
+    dep = astq.dep_closure(list(fi.node.body), set(score_params))
+    scrubbed = {}
+    for st in walk_function(fi.node):
+        if isinstance(st, ast.Assign) and isinstance(st.targets[0], ast.Subscript) and isinstance(st.targets[0].value, ast.Name):
+            m = st.targets[0].slice
+            if isinstance(m, ast.Call) and norm(m.func).split(".")[-1] == "isnan" and m.args and norm(m.args[0]) == st.targets[0].value.id:
+                scrubbed[st.targets[0].value.id] = st.lineno
+    res.ob(R, bool(scrubbed), fi.qualname, "NaN scores are scrubbed before matching", "no NaN scrub of the cost matrix found", fi.where)
+    SEL = {"argmax", "argmin", "max", "min", "amax", "amin", "topk", "sort", "argsort", "linear_sum_assignment", "nanargmax", "nanargmin"}
+    n = 0
+    for c in walk_function(fi.node):
+        if not isinstance(c, ast.Call):
+            continue
+        name = norm(c.func).split(".")[-1]
+        if name not in SEL:
+            continue
+        operand = c.args[0] if c.args and (norm(c.func).split(".")[0] in ("torch", "np", "numpy") or isinstance(c.func, ast.Name)) else (c.func.value if isinstance(c.func, ast.Attribute) else None)
+        if operand is None:
+            continue
+        names = astq.names_in(operand)
+        if not (names & dep):
+            continue
+        n += 1
+        if name.startswith("nanarg"):
+            ok = True
+        else:
+            base = astq.attr_base(operand) if not isinstance(operand, ast.Name) else operand.id
+            ok = base in scrubbed and scrubbed[base] < c.lineno
+        res.ob(R, ok, fi.qualname, f"{name}() ranks scrubbed scores: {short(c, 50)}",
+               f"`{short(c, 60)}` ranks values derived from the line scores that have not been NaN-scrubbed: an undefined (NaN) score of two peaks on the same pixel is "
+               "treated as the best candidate and the defined match is lost", f"{fi.module.relpath}:{c.lineno}")
+    res.floor(R, 2)
+
+
 def check(prog: Program, res: Result) -> None:
     c09.check_inf(prog, res, "C08-inf", PG)
     check_filter(prog, res)
     c17.check_use(prog, res, rule="C08-order")
     check_minpeaks(prog, res)
+    check_select(prog, res)
     check_partition(prog, res)
     from . import c03
     res.borrow(c03.check_lines_premises, "C08-lines", prog)
